@@ -86,6 +86,10 @@ func (o Op) text() string {
 		// many reset!s in a row, each checked against its argument; the result is the list of mismatches
 		// (on an atom of its own, a3: the intermediate values are nobody else's business)
 		return fmt.Sprintf("(reduce (fn (bad i) (let (v (+ %d i)) (if (= (reset! a3 v) v) bad (cons v bad)))) (list) (range 0 %d))", 100000*(o.Arg+10*o.Atom), resetLoopN)
+	case "falsyswap":
+		// update functions whose result is nil or false (a lisp function, a builtin) on an atom of the evaluation's own:
+		// the falsy result is installed like any other, and read back
+		return fmt.Sprintf("(let (z (atom [%d])) (list (swap! z (fn (x) nil)) @z (reset! z []) (swap! z first) @z (swap! z (fn (x) false)) @z))", o.Arg)
 	case "resetseq":
 		return fmt.Sprintf("(reset! %s %s)", a, seqValues[o.Arg%len(seqValues)].src)
 	case "conj":
@@ -115,7 +119,7 @@ var seqValues = []struct {
 
 func genOp(t *rapid.T, atoms int, allowGate bool) Op {
 	o := Op{Gate: -1, Atom: gen.Uniform(t, "atom", atoms), Arg: 1 + gen.Uniform(t, "arg", 5)}
-	kinds := []string{"deref", "deref", "reset", "add", "add", "add", "fail", "addself", "addother", "resetother", "swapother", "derefself", "derefself", "gensym", "memo", "resetseq", "resetseq", "conj", "setrest", "setrest", "resetloop"}
+	kinds := []string{"deref", "deref", "reset", "add", "add", "add", "fail", "addself", "addother", "resetother", "swapother", "derefself", "derefself", "gensym", "memo", "resetseq", "resetseq", "conj", "setrest", "setrest", "resetloop", "falsyswap"}
 	o.Kind = kinds[gen.Uniform(t, "kind", len(kinds))]
 	if atoms < 2 && (o.Kind == "addother" || o.Kind == "resetother" || o.Kind == "swapother") {
 		o.Kind = "add"
@@ -460,6 +464,14 @@ func (r *runner) exec(ctx context.Context, client int, o Op) string {
 			return fmt.Sprintf("%s failed: %v", o.text(), res.Err)
 		}
 		r.record(client, opIn{Kind: "resetseq", Atom: o.Atom, Seq: val.Canon(val.L(val.I(o.Arg), val.I(o.Arg+1), val.I(o.Arg+2)))}, out, t0, t1)
+	case "falsyswap":
+		if res.Err != nil {
+			return fmt.Sprintf("%s failed: %v", o.text(), res.Err)
+		}
+		if out.Val != "(nil nil [] nil nil false false)" {
+			return fmt.Sprintf("%s: gives %s; every swap! returns the update function's result, nil and false included, and the next deref reads it: (nil nil [] nil nil false false)", o.text(), out.Val)
+		}
+		return ""
 	case "resetloop":
 		if res.Err != nil {
 			return fmt.Sprintf("%s failed: %v", o.text(), res.Err)
